@@ -1,5 +1,5 @@
 // append-to: src/vt.rs
-// harness: k_vt_resize_a props=C02,C13,C15 fns=Vt::resize kind=bounded tier=thorough timeout=1800 obligation=Vt::resize(= Terminal::resize, then changes(), then gc()) bound="2x2 terminal with one scrollback line, limit 0, resize to 3x1"
+// harness: k_vt_resize_a props=C02,C13,C15 fns=Vt::resize kind=bounded tier=thorough timeout=1800 obligation="Vt::resize(= Terminal::resize, then changes(), then gc())" bound="2x2 terminal with one scrollback line, limit 0, resize to 3x1"
 // harness: k_vt_resize_b props=C02,C13,C15 fns=Vt::resize kind=bounded tier=thorough timeout=900 obligation=Vt::resize bound="2x2 terminal with one scrollback line, limit 0, resize to 1x3"
 #[cfg(kani)]
 mod verif_kani_vt {
